@@ -278,6 +278,10 @@ class Builder:
         d = pt.DynamicScratchVar(pt.TealType.uint64)
         return pt.Seq(d.set_index(self.var(t[1])), d.load())
 
+    def b_DynIndex(self, t):
+        d = pt.DynamicScratchVar(pt.TealType.uint64)
+        return d.set_index(self.var(t[1]))
+
     def b_TxnField(self, t):
         return TXN_ACCESS[t[1]]()
 
